@@ -1,6 +1,7 @@
 package main
 
 import (
+	"encoding/json"
 	"errors"
 	"fmt"
 	"math"
@@ -68,13 +69,21 @@ var c07Values = []struct {
 	{"wrappedreserrmarshaler", resErrMarshaler{wrap: true}, false},
 }
 
+// resource ids handed to Request.Resource: valid rids whose text needs JSON escaping (query part: anything;
+// name part: a backslash followed by a letter that would form a JSON escape)
+var c07RIDs = map[string]string{
+	"Resource":   "t.x.1?q=1",
+	"ResourceQ":  "t.x.1?q=\"a\\b\"\x01\u00e9&p=C:\\dir",
+	"ResourceBS": "t.x\\b.1",
+}
+
 var c07Methods = map[string][]string{
 	"access": {"Access", "AccessTrueEmpty", "AccessDenied", "AccessGranted", "NotFound", "InvalidQuery", "InvalidQueryMsg", "Error", "ErrorData", "ErrorCtl", "InvalidQueryCtl"},
 	"get":    {"Model", "QueryModel", "Collection", "QueryCollection", "NotFound", "InvalidQuery", "Error", "ErrorData", "ErrorCtl", "InvalidQueryCtl"},
-	"call": {"OK", "Resource", "NotFound", "MethodNotFound", "InvalidParams", "InvalidParamsMsg", "InvalidQuery", "Error", "ErrorData", "ErrorCtl", "InvalidParamsCtl", "InvalidQueryCtl", "PanicCtl",
+	"call": {"OK", "Resource", "ResourceQ", "ResourceBS", "NotFound", "MethodNotFound", "InvalidParams", "InvalidParamsMsg", "InvalidQuery", "Error", "ErrorData", "ErrorCtl", "InvalidParamsCtl", "InvalidQueryCtl", "PanicCtl",
 		"Event", "ChangeEvent", "AddEvent", "RemoveEvent", "CreateEvent", "DeleteEvent", "ReaccessEvent", "ResetEvent", "Timeout",
 		"SvcTokenEvent", "SvcTokenEventWithID", "SvcTokenReset", "SvcReset", "SvcResetAll"},
-	"auth": {"OK", "Resource", "TokenEvent", "Error", "ErrorData", "MethodNotFound", "ErrorCtl", "InvalidParamsCtl"},
+	"auth": {"OK", "Resource", "ResourceQ", "ResourceBS", "TokenEvent", "Error", "ErrorData", "MethodNotFound", "ErrorCtl", "InvalidParamsCtl"},
 	"new":  {"New", "Error"},
 }
 
@@ -156,6 +165,10 @@ func c07Run(c c07Case) (pubs []envnats.Msg, problems []string) {
 			r.OK(val)
 		case "Resource":
 			r.Resource("t.x.1?q=1")
+		case "ResourceQ":
+			r.Resource(c07RIDs["ResourceQ"])
+		case "ResourceBS":
+			r.Resource(c07RIDs["ResourceBS"])
 		case "New":
 			r.New(res.Ref("t.x.1"))
 		case "TokenEvent":
@@ -285,6 +298,16 @@ func c07Judge(c c07Case, emit func(prop, desc string)) string {
 				cls, _ := ref.ResponseClass(m.Data)
 				if n != 1 || (resp.HasError() != strings.HasPrefix(cls, "error")) || (resp.HasResource() != (cls == "resource")) {
 					emit("C18", fmt.Sprintf("resprot.ParseResponse(%q): result=%v resource=%v error=%v, message class %s", m.Data, resp.HasResult(), resp.HasResource(), resp.HasError(), cls))
+				}
+				if want, ok := c07RIDs[c.Method]; ok {
+					var rr struct {
+						Resource *struct {
+							RID string `json:"rid"`
+						} `json:"resource"`
+					}
+					if err := json.Unmarshal([]byte(m.Data), &rr); err != nil || rr.Resource == nil || rr.Resource.RID != want {
+						emit("C18", fmt.Sprintf("resource response %q does not decode to the resource id %q the handler supplied", m.Data, want))
+					}
 				}
 				// a value that cannot be marshalled must give system.internalError
 				usesVal := map[string]bool{"ErrorData": true, "Model": true, "QueryModel": true, "Collection": true, "QueryCollection": true, "OK": true}[c.Method]
